@@ -31,11 +31,19 @@ def one(sid, rnd, kinds, thorough):
     s.init()
     s.await_exec(kind="rt", n=1)
     nexec = 1
-    polltag = s.poll("rt")
+    cold = rnd.random() < 0.5
+    if cold:
+        # cold start: the first invocation arrives while the runtime is still initialising (first poll 50 ms later)
+        polltag = None
+    else:
+        polltag = s.poll("rt")
     fresh = False
     for j, kind in enumerate(kinds):
         ctx = "ctx-%d-%s" % (j, "x" * rnd.randrange(0, 40)) if rnd.random() < 0.5 else ""
         it = s.invoke(size=(3 * 1024 * 1024 if kind == "abort" else sizes(rnd, thorough)), seed=rnd.randrange(1, 10 ** 6), ctx=ctx)
+        if polltag is None:
+            s.sleep(50)
+            polltag = s.call("rt", "next", async_=True)
         if fresh:
             # the previous environment was torn down: this invocation starts a new runtime (inline init)
             nexec += 1
